@@ -284,6 +284,8 @@ mod tracked_struct;
 #[cfg(salsa_rs_salsa_verif)]
 pub mod verif;
 #[cfg(salsa_rs_salsa_verif)]
+pub mod verif_conc;
+#[cfg(salsa_rs_salsa_verif)]
 pub mod verif_intern;
 mod views;
 mod zalsa;
